@@ -136,21 +136,24 @@ pub fn configs(tier: Tier) -> Vec<(Cfg, Plan)> {
     let mut v = Vec::new();
     for pattern in PATTERNS {
         for variant in VARIANTS {
-            for (two_nodes, objects, send) in graphs(pattern, tier) {
-                let n = objects.len();
-                // ipc graphs with 8 objects (40 320 permutations, files and shared memory for each)
-                // do not fit the budget: the ipc variants use the 8-object graphs minus one node handle
+            for (gi, (two_nodes, objects, send)) in graphs(pattern, tier).into_iter().enumerate() {
+                // quick: the thread-safe ipc variant runs the first graph only
+                if tier == Tier::Quick && variant == Variant::IpcThreadsafe && gi > 0 {
+                    continue;
+                }
+                // cost per execution: ipc ~50 ms CPU, local ~3 ms. Quick: ipc graphs have 5 objects (the
+                // 6-object graph minus the first service / node handle), thorough: 7 (the 8-object graph
+                // minus one node handle); the local variants run the full graphs.
                 let mut objects = objects;
-                if variant.is_ipc() && n == 8 {
-                    objects.retain(|o| *o != Obj::Node1 || !two_nodes);
-                    if objects.len() == 8 {
-                        objects.retain(|o| *o != Obj::Node0);
-                    }
+                if variant.is_ipc() && (objects.len() == 8 || tier == Tier::Quick) {
+                    let victim = [Obj::Svc0, Obj::Node1, Obj::Node0].into_iter().find(|o| objects.contains(o)).unwrap();
+                    objects.retain(|o| *o != victim);
                 }
                 let n = objects.len();
                 let split = match (variant.is_ipc(), n) {
                     (true, 7..) => 7,
                     (true, 6) => 6,
+                    (true, _) => 5,
                     (false, 8..) => 8,
                     (false, 7) => 4,
                     _ => 2,
@@ -881,7 +884,7 @@ where
 {
     fn drop(&mut self) {
         self.teardown();
-        self.domain.remove();
+        self.domain.remove(self.cfg.variant.is_ipc());
     }
 }
 
@@ -922,7 +925,7 @@ where
         }
         self.reuse_names()?;
         let second = self.check_empty_domain("after the names were reused and dropped again")?;
-        self.domain.remove();
+        self.domain.remove(self.cfg.variant.is_ipc());
         match deferred.or(second) {
             Some(f) => Err(f),
             None => Ok(()),
